@@ -145,3 +145,23 @@ Section Live.
     destruct (logops_len D (ps_db st') d1 Hinv' Hin1 Hd1) as [_ Hlen]. rewrite <- Hlen, firstn_all. reflexivity.
   Qed.
 End Live.
+
+(* what a client has executed from others, together with its own operations of the log, is the log: with the convergence
+   theorems of C01 (counter, map, list: executable orders of the same operations give the same state) clients that have
+   caught up hold the same state *)
+From Coq Require Import Permutation.
+Lemma own_foreign_perm u L : Permutation (owns u L ++ foreign u L) L.
+Proof.
+  unfold owns, foreign. induction L as [|a L IH]; cbn [filter]; [constructor|].
+  destruct (own_of u a); cbn [negb app]; [constructor; exact IH|].
+  eapply Permutation_trans; [apply Permutation_sym, Permutation_middle|]. constructor. exact IH.
+Qed.
+
+Theorem quiet_round_everyone_has_the_log colname col D key ty st :
+  PInv col D st -> quiet D st ->
+  let st' := prun colname col D key ty st (map (fun i => PSync i false) (seq 0 (length (ps_cl st)))) in
+  forall c, In c (ps_cl st') -> Permutation (owns (pc_cuid c) (logops D (ps_db st')) ++ pc_exec c) (logops D (ps_db st')).
+Proof.
+  intros HP HQ st' c Hc. destruct (quiet_round_converges colname col D key ty st HP HQ) as [_ H]. fold st' in H.
+  rewrite (H c Hc). apply own_foreign_perm.
+Qed.
